@@ -38,6 +38,14 @@ Fixpoint lines (s : string) : list string :=
            end
   end.
 
+(* the file is empty or its last byte is '\n' *)
+Fixpoint ends_nl (s : string) : bool :=
+  match s with
+  | EmptyString => true
+  | String c EmptyString => Ascii.eqb c nl
+  | String _ r => ends_nl r
+  end.
+
 (* ScanLines drops one trailing '\r' of every token *)
 Fixpoint drop_cr (s : string) : string :=
   match s with
